@@ -675,6 +675,11 @@ def main(ck: Check):
             elif it.get('kind') == 'weapon':
                 run_weapon(it['logic'], it['armor'], tuple(PotentialTier(t) for t in it['tiers']),
                            LOGICS[it['logic']][0](**lp), it['ref']); n_run += 1
+            # ---- BEGIN part "Targets" (harness/c19_targets.py): recorded failing inputs of the concrete targets
+            elif str(it.get('kind', '')).startswith('tgt:'):
+                import c19_targets
+                n_run += c19_targets.replay(ck, it, LOGICS, data, squad)
+            # ---- END part "Targets"
         for f in ck.failing[:10]:
             print('still failing:', _json.dumps(f, ensure_ascii=False, default=str)[:600])
         for l in ck.known_lines:
@@ -683,6 +688,17 @@ def main(ck: Check):
             print(f'VIOLATION property=C19 replay={ck.replay}')
         print(f'[C19] replay of {n_run} recorded inputs: {len(ck.failing)} failing')
         _sys.exit(1 if ck.failing else 0)
+
+    # ============================================================ BEGIN part "Targets" (harness/c19_targets.py)
+    # the CONCRETE targets: Gen/Systems.lean (generated), Model/Targets.lean, Props/C19_Targets.lean (part file,
+    # built and audited by ck.prove below).  Here: the part's statements evaluated on the real code (cost/value/table/
+    # budget monotonicity) and the driver requests for the model-vs-code comparison (made under the Lean lock below).
+    import c19_targets
+    tgt = c19_targets.Part(ck, LOGICS, make_logic, make_reference_stat, data, squad, stat_of_state)
+    tgt.real_code()
+    tgt.build_requests()
+    ck.notes.append(f"part Targets: real code + requests {ck.elapsed():.1f}s")
+    # ============================================================ END part "Targets"
 
     # ============================================================ A. cases for the four step-wise targets
     cases = []
@@ -816,40 +832,45 @@ def main(ck: Check):
                 "logic_params": {"attack_range_constant": logic.attack_range_constant, "mastery": logic.mastery}}
         preset_calls += 1
         evaluations += 1
-        hs = po.calculate_optimal_hyperstat(ref)
-        if hs.get_current_cost() > Hyperstat.get_maximum_cost_from_level(level) or any(lv > 15 for lv in hs.levels):
-            fail("calculate_optimal_hyperstat over budget or over level 15", **desc, levels=hs.levels, cost=hs.get_current_cost())
-        if logic.get_damage_factor(ref + hs.get_stat()) < logic.get_damage_factor(ref) * (1 - REL):
-            fail("calculate_optimal_hyperstat worse than nothing", **desc, levels=hs.levels)
-        ln = po.calculate_optimal_links(ref)
-        if ln.length() > max(po.link_count, 1) or not any(job in l.providing_jobs for l in ln.links):
-            fail("calculate_optimal_links over the link count or without the character's own link", **desc,
-                 links=[l.name for l in ln.links])
-        sq = po.calculate_optimal_union_squad(ref)
-        need = {job, *alts}
-        if sq.length() > max(po.union_block_count, len(need)) or not need <= {b.job for b in sq.blocks}:
-            fail("calculate_optimal_union_squad over the block count or without the pre-assigned jobs", **desc,
-                 blocks=[b.job.value for b in sq.blocks])
-        count = rng.choice([40, 57, 120, 180, 205])
-        oc = po.calculate_optimal_union_occupation(ref, count)
-        st = oc.occupation_state
-        if sum(st) > count or any(x > 40 for x in st) or (po.buff_duration_preempted and st[4] != 40):
-            fail("calculate_optimal_union_occupation over the count / limit or without the preset", **desc,
-                 occupation_count=count, state=st)
-        wp = po.calculate_optimal_weapon_potential(ref, rng.choice(preferred))
-        for pi, p in enumerate(wp):
-            if p.options and not legal_lines([o.stat for o in p.options], pi == 2):
-                fail("calculate_optimal_weapon_potential returned an illegal potential", **desc, potential=pi)
+        try:     # (added with part "Targets": an entry point that raises is a failing input, not a harness crash)
+            hs = po.calculate_optimal_hyperstat(ref)
+            if hs.get_current_cost() > Hyperstat.get_maximum_cost_from_level(level) or any(lv > 15 for lv in hs.levels):
+                fail("calculate_optimal_hyperstat over budget or over level 15", **desc, levels=hs.levels, cost=hs.get_current_cost())
+            if logic.get_damage_factor(ref + hs.get_stat()) < logic.get_damage_factor(ref) * (1 - REL):
+                fail("calculate_optimal_hyperstat worse than nothing", **desc, levels=hs.levels)
+            ln = po.calculate_optimal_links(ref)
+            if ln.length() > max(po.link_count, 1) or not any(job in l.providing_jobs for l in ln.links):
+                fail("calculate_optimal_links over the link count or without the character's own link", **desc,
+                     links=[l.name for l in ln.links])
+            sq = po.calculate_optimal_union_squad(ref)
+            need = {job, *alts}
+            if sq.length() > max(po.union_block_count, len(need)) or not need <= {b.job for b in sq.blocks}:
+                fail("calculate_optimal_union_squad over the block count or without the pre-assigned jobs", **desc,
+                     blocks=[b.job.value for b in sq.blocks])
+            count = rng.choice([40, 57, 120, 180, 205])
+            oc = po.calculate_optimal_union_occupation(ref, count)
+            st = oc.occupation_state
+            if sum(st) > count or any(x > 40 for x in st) or (po.buff_duration_preempted and st[4] != 40):
+                fail("calculate_optimal_union_occupation over the count / limit or without the preset", **desc,
+                     occupation_count=count, state=st)
+            wp = po.calculate_optimal_weapon_potential(ref, rng.choice(preferred))
+            for pi, p in enumerate(wp):
+                if p.options and not legal_lines([o.stat for o in p.options], pi == 2):
+                    fail("calculate_optimal_weapon_potential returned an illegal potential", **desc, potential=pi)
+        except (ZeroDivisionError, IndexError, TypeError, StepwizeOptimizer.MaximumOptimizationStepExceed) as e:
+            fail("a PresetOptimizer entry point raised", **desc, error=type(e).__name__)
 
     # ============================================================ D. proofs and the model's answers
     t_py = ck.elapsed()
     with ck.locked():
         t_lock = ck.elapsed()
+        ck.regenerate(["systems", "core"])      # part "Targets": Gen/Systems.lean + Gen/Core.lean from the current source
         proved = ck.prove("Simaple.Props.C19")
         if ck.tier == "thorough" and proved:
             ck.leanchecker(["Simaple.Props.C19"])
         t_prove = ck.elapsed()
         res = ck.driver(reqs, timeout=max(120.0, ck.time_left() + 240))
+        tgt.correspond(ck.driver(tgt.reqs, timeout=max(120.0, ck.time_left() + 240)))      # part "Targets"
     ck.notes.append(f"phases: real code {t_py:.1f}s, wait for lean lock {t_lock - t_py:.1f}s, "
                     f"prove+audit {t_prove - t_lock:.1f}s, driver {ck.elapsed() - t_prove:.1f}s")
 
@@ -976,6 +997,17 @@ def main(ck: Check):
         "replay_float_near_ties": near_ties,
         "replay_float_near_tie_samples": near_tie_samples,
     })
+    # ---- BEGIN part "Targets"
+    ck.coverage.update(tgt.coverage())
+    ck.coverage["evaluations"] += tgt.evaluations
+    ck.coverage["distinct_nontrivial"] += len(tgt.distinct)
+    ck.assumptions.append(
+        "part Targets: the concrete targets' tables, budget formula and maximum_step are regenerated from the source "
+        "(YAML specs, _HYPERSTAT_COST, get_maximum_cost_from_level, get_union_occupation_values, the super().__init__ "
+        "calls) on every run and compared with the live objects; get_cost/get_value are hand-written (Model/Targets.lean) "
+        "and compared with the real targets on seeded states; value monotonicity is proved in the positive-damage domain "
+        "(ConfigOk: reference stat fields >= 0, final damage >= -100, ignore-defence <= 100, armour term >= 0)")
+    # ---- END part "Targets"
     ck.assumptions += [
         "floats are modelled by exact rationals; the greedy replay computes rewards exactly from the recorded float "
         "answers; a divergence counts as float noise only if the two rewards agree to 1e-9 (counted in "
